@@ -56,6 +56,12 @@ func c01Case(t *rapid.T, ev *evProp, gi *GroupInfo) {
 		p := markVT(gi, g.Point())
 		if used {
 			nrecv++
+			if nrecv%3 == 0 {
+				// a receiver that got its old value by decoding
+				if b, err := junk[nrecv%len(junk)].MarshalBinary(); err == nil && p.UnmarshalBinary(b) == nil {
+					return p
+				}
+			}
 			p.Set(junk[nrecv%len(junk)])
 			p.Add(p, junk[(nrecv+1)%len(junk)])
 		}
@@ -99,7 +105,21 @@ func c01Case(t *rapid.T, ev *evProp, gi *GroupInfo) {
 		l.eq("Mul(a,nil)=Mul(a,Base)", pt().Mul(a.S, nil), pt().Mul(a.S, B))
 	}
 	// the same laws with the receiver aliasing an operand (documented use: "P.Add(P, Q)")
-	al := func() kyber.Point { return markVT(gi, P.P.Clone()) }
+	// (the aliased receiver is a clone of P, or an object that obtained P's value by DECODING its
+	// encoding - an implementation that keeps something from the decoding, e.g. the wire bytes, must
+	// drop it in every operation that changes the value)
+	encP := mustMarshal(t, P.P)
+	aliasDecoded := rapid.Bool().Draw(t, "aliasdecoded")
+	l.ctx += fmt.Sprintf(" aliasDecoded=%v", aliasDecoded)
+	al := func() kyber.Point {
+		if aliasDecoded {
+			p := markVT(gi, g.Point())
+			if err := p.UnmarshalBinary(encP); err == nil {
+				return p
+			}
+		}
+		return markVT(gi, P.P.Clone())
+	}
 	var r1 kyber.Point
 	r1 = al()
 	l.eq("r=P; r.Add(r,Q)", r1.Add(r1, Q.P), pq)
